@@ -605,6 +605,53 @@ func (w *World) registerIntrinsics() {
 		e.unsupported("errors.Is chain too long")
 		return nil
 	}
+	// errors.As: the first error in the chain whose dynamic type is assignable to the target's
+	// element type is stored into the target
+	I["errors.As"] = func(e *Exec, fn *ssa.Function, a []Value) Value {
+		err := a[0].(*IfaceVal)
+		tgt, ok := a[1].(*IfaceVal)
+		if !ok || tgt.typ == nil {
+			e.panicHere("errors: target cannot be nil")
+		}
+		pt, ok := under(tgt.typ).(*types.Pointer)
+		tp, ok2 := tgt.val.(*Pointer)
+		if !ok || !ok2 || isNilPtr(tp) {
+			e.panicHere("errors: target must be a non-nil pointer")
+		}
+		T := pt.Elem()
+		for k := 0; k < 10; k++ {
+			if err.typ == nil {
+				return tFalse
+			}
+			match := false
+			if it, isI := under(T).(*types.Interface); isI {
+				match = types.Implements(err.typ, it)
+			} else {
+				match = types.Identical(err.typ, T)
+			}
+			if match {
+				if _, isI := under(T).(*types.Interface); isI {
+					e.store(tp, &IfaceVal{typ: err.typ, val: err.val})
+				} else {
+					e.store(tp, err.val)
+				}
+				return tTrue
+			}
+			if e.w.findMethod(err.typ, "As") != nil {
+				e.unsupported("errors.As over an error with its own As method")
+			}
+			um := e.w.findMethod(err.typ, "Unwrap")
+			if um == nil {
+				return tFalse
+			}
+			if um.Signature.Results().Len() != 1 || !types.IsInterface(um.Signature.Results().At(0).Type()) {
+				return tFalse
+			}
+			err = e.callFunction(um, []Value{err.val}).(*IfaceVal)
+		}
+		e.unsupported("errors.As chain too long")
+		return nil
+	}
 	I["errors.Unwrap"] = func(e *Exec, fn *ssa.Function, a []Value) Value {
 		err := a[0].(*IfaceVal)
 		if err.typ == nil {
